@@ -40,6 +40,9 @@ def main():
     extra = []
     if "--only" in a:
         i = a.index("--only"); extra = ["--only", a[i + 1]]; del a[i:i + 2]
+    seeds = ["1"]
+    if "--seeds" in a:
+        i = a.index("--seeds"); seeds = a[i + 1].split(","); del a[i:i + 2]
     prop = a[0]
     if a[1] == "--all":
         rc_all = 0
@@ -49,12 +52,16 @@ def main():
                 r = subprocess.run(["patch", "-p1", "-s", "-d", d, "-i", patch], capture_output=True, text=True)
                 if r.returncode != 0:
                     print(f"{os.path.basename(patch)}: PATCH-FAILED {r.stdout}{r.stderr}"); rc_all = 2; continue
-                rc, out = run(prop, d, tier, extra)
-                keys = [l.strip() for l in out.splitlines() if l.strip().startswith("violation in")]
-                print(f"{os.path.basename(patch)}: exit={rc} {'CAUGHT' if rc == 1 else 'MISSED' if rc == 0 else 'ERROR'} {keys[:2]}")
-                if rc != 1:
-                    rc_all = 1
+                rcs = []
+                for sd in seeds:
+                    rc, out = run(prop, d, tier, extra + ["--seed", sd])
+                    rcs.append(rc)
                     if rc == 2: print(out[-1500:])
+                keys = [l.strip()[:160] for l in out.splitlines() if l.strip().startswith("violation in")]
+                verdict = "CAUGHT" if all(r == 1 for r in rcs) else "MISSED" if all(r == 0 for r in rcs) else "ERROR" if 2 in rcs else "FLAKY"
+                print(f"{os.path.basename(patch)}: exit={rcs} {verdict} {keys[:1]}", flush=True)
+                if verdict != "CAUGHT":
+                    rc_all = 1
             finally:
                 shutil.rmtree(d, ignore_errors=True)
         return rc_all
